@@ -678,7 +678,9 @@ fn do_minimize(dfa: DFA) -> DFA {
                 partitions.insert(states_to_remove_intern_id);
                 partitions.insert(remaining_states_intern_id);
 
-                if worklist.contains(&intern_id) {
+                if worklist.contains(&intern_id) || group_id == intern_id {
+                    // Both halves are needed when the splitter splits itself too: the rest of
+                    // its own pass is abandoned below, so neither half has been accounted for.
                     worklist.remove(&intern_id);
                     worklist.insert(states_to_remove_intern_id);
                     worklist.insert(remaining_states_intern_id);
